@@ -124,6 +124,14 @@ func c08(x *mc.Cell, pull bool, limit uint64, k, depth, maxDev int) {
 								viol(fmt.Sprintf("crossing-initiator-not-told;wrong-peer=%v", wrongPeer), fmt.Sprintf("total %d -> %d, limit %d: %s", tBefore, t, l, d))
 							}
 						}
+						if l != 0 && tBefore >= l && st0.RPaused {
+							// the channel is paused at its limit and no sufficient update has arrived (also after a process
+							// restart): "no further payload progresses" - the report must keep returning the pause signal
+							ex.Premise = true
+							if !paused {
+								viol("report-while-over-limit-not-paused", fmt.Sprintf("channel paused at its limit (progress %d, limit %d): a further report (total now %d) did not return the pause signal", tBefore, l, t))
+							}
+						}
 						if below {
 							if paused || exceeded {
 								viol("pause-below-limit", fmt.Sprintf("report with total %d below limit %d returned pause=%v exceeded=%v", t, l, paused, exceeded))
